@@ -178,6 +178,12 @@ func c06Cases(maxF int, thorough bool) []c06Case {
 			}
 		}
 	}
+	// exclude files without entries (empty, comment only, definition only) before, between and after files with entries
+	for i, w1 := range c06Words {
+		xsets = append(xsets, [][]string{{}, {w1}}, [][]string{{w1}, {}}, [][]string{{"##! note", ""}, {w1}})
+		w2 := c06Words[(i+3)%len(c06Words)]
+		xsets = append(xsets, [][]string{{w1}, {}, {w2}}, [][]string{{"##!> define unused x"}, {w1}, {w2}})
+	}
 	var out []c06Case
 	// include files that declare a prefix/suffix: their implicit assemble block consists of directive
 	// lines (ending in `e`, `>` and `<`) that no pair may touch
@@ -208,7 +214,7 @@ func c06Cases(maxF int, thorough bool) []c06Case {
 func c06Eval(root *inproc.Root, c c06Case, bound int, st *c06Out) *c06Fail {
 	f, xs := c.files()
 	os.WriteFile(filepath.Join(root.Dir, "regex-assembly/include/inc.ra"), []byte(f), 0o644)
-	for i := 0; i < 2; i++ {
+	for i := 0; i < 3; i++ {
 		p := filepath.Join(root.Dir, fmt.Sprintf("regex-assembly/exclude/ex%d.ra", i))
 		if i < len(xs) {
 			os.WriteFile(p, []byte(xs[i]), 0o644)
